@@ -23,7 +23,7 @@ theorem flag_normP (p : Int) (k : Nat) (hk : k ∈ [0, 1, 2, 3, 6, 7, 14, 15]) :
   simp only [List.mem_cons, List.mem_nil_iff, or_false] at hk
   rcases hk with rfl | rfl | rfl | rfl | rfl | rfl | rfl | rfl <;>
   · simp only [normP, setFlag, flag, bitB, bitU]
-    simp; omega
+    simp [eqB]; omega
 
 theorem normP_setNZ (W : Nat) (hW : W = 8 ∨ W = 16) (p v : Int) :
     normP (setNZ W p v) = setNZ W (normP p) v := by
@@ -42,10 +42,10 @@ theorem nextPc_abs (W : Nat) (mo : Mode) (s : St) : nextPc W mo (abs s) = nextPc
 theorem FlagsNZ_core (c : Cfg) (hc : IsDev c) (v : Int) (s : St) (hv : 0 ≤ v ∧ v ≤ c.byteMask) :
     core (Mpu6502.FlagsNZ c v s) = { core s with p := setNZ c.BYTE_WIDTH s.p v } := by
   rcases hc with rfl | rfl <;>
-  · unfold Mpu6502.FlagsNZ setNZ setFlag
-    simp only [bitN, bitZ]
-    simp [pyarith] at hv ⊢
-    split <;> (simp only [core, AState.mk.injEq, and_true, true_and]; split_ifs <;> omega)
+  · simp only [Mpu6502.FlagsNZ, core]
+    constfold [setNZ] at hv ⊢
+    simp only [flagalg]
+    split <;> simp [flagalg, *] <;> flag_close
 
 /-- What a handler theorem says: for every well-formed state after the opcode fetch, the
 handler's effect (PC reduced modulo the address space, status bits 4/5 forced) is `Spec.exec`. -/
@@ -94,5 +94,190 @@ theorem opLDA_ok (c : Cfg) (hc : IsDev c) (v : Variant) (x : St → Int × St) (
   proj_simp
   rw [FlagsNZ_p c _ _ hc (by simpa [hmem, hv] using hm)]
   simp only [hp, hmem, hv, ByteAt_p, ByteAt_val, normP_setNZ _ hc.W, addrMask_succ hc]
+
+
+theorem opLDX_ok (c : Cfg) (hc : IsDev c) (v : Variant) (x : St → Int × St) (mo : Mode)
+    (hx : ModeSem c x mo) :
+    HandlerOK c v (fun s => bump (mo.len - 1) (Mpu6502.opLDX c x s)) .LDX mo := by
+  intro s hs
+  obtain ⟨hv, hcore⟩ := hx s hs
+  obtain ⟨ha, hxx, hy, hsp, hp, hpc, hmem, hw⟩ := core_fields hcore
+  have hm := hs.mem (ea c.BYTE_WIDTH mo (core s))
+  simp only [exec, ea_abs, nextPc_abs]
+  generalize ea c.BYTE_WIDTH mo (core s) = e at hv hm
+  simp only [Mpu6502.opLDX]
+  proj_simp
+  rw [FlagsNZ_p c _ _ hc (by simpa [hmem, hv] using hm)]
+  simp only [hp, hmem, hv, ByteAt_p, ByteAt_val, normP_setNZ _ hc.W, addrMask_succ hc]
+
+theorem opLDY_ok (c : Cfg) (hc : IsDev c) (v : Variant) (x : St → Int × St) (mo : Mode)
+    (hx : ModeSem c x mo) :
+    HandlerOK c v (fun s => bump (mo.len - 1) (Mpu6502.opLDY c x s)) .LDY mo := by
+  intro s hs
+  obtain ⟨hv, hcore⟩ := hx s hs
+  obtain ⟨ha, hxx, hy, hsp, hp, hpc, hmem, hw⟩ := core_fields hcore
+  have hm := hs.mem (ea c.BYTE_WIDTH mo (core s))
+  simp only [exec, ea_abs, nextPc_abs]
+  generalize ea c.BYTE_WIDTH mo (core s) = e at hv hm
+  simp only [Mpu6502.opLDY]
+  proj_simp
+  rw [FlagsNZ_p c _ _ hc (by simpa [hmem, hv] using hm)]
+  simp only [hp, hmem, hv, ByteAt_p, ByteAt_val, normP_setNZ _ hc.W, addrMask_succ hc]
+
+/-! ### logic -/
+
+theorem byte_pow {c : Cfg} (hc : IsDev c) : c.byteMask + 1 = 2 ^ c.BYTE_WIDTH := by
+  rcases hc with rfl | rfl <;> simp [pyarith]
+
+theorem lor_byte {c : Cfg} (hc : IsDev c) (x y : Int) (hx : 0 ≤ x ∧ x ≤ c.byteMask)
+    (hy : 0 ≤ y ∧ y ≤ c.byteMask) : 0 ≤ lor x y ∧ lor x y ≤ c.byteMask := by
+  have h := byte_pow hc
+  have := lor_range x y c.BYTE_WIDTH hx.1 (by omega) hy.1 (by omega)
+  omega
+theorem lxor_byte {c : Cfg} (hc : IsDev c) (x y : Int) (hx : 0 ≤ x ∧ x ≤ c.byteMask)
+    (hy : 0 ≤ y ∧ y ≤ c.byteMask) : 0 ≤ lxor x y ∧ lxor x y ≤ c.byteMask := by
+  have h := byte_pow hc
+  have := lxor_range x y c.BYTE_WIDTH hx.1 (by omega) hy.1 (by omega)
+  omega
+theorem land_byte {c : Cfg} (x y : Int) (hy : 0 ≤ y ∧ y ≤ c.byteMask) :
+    0 ≤ land x y ∧ land x y ≤ c.byteMask := by
+  have := land_nonneg x y hy.1
+  have := land_le_right x y hy.1
+  omega
+
+theorem opORA_ok (c : Cfg) (hc : IsDev c) (v : Variant) (x : St → Int × St) (mo : Mode)
+    (hx : ModeSem c x mo) :
+    HandlerOK c v (fun s => bump (mo.len - 1) (Mpu6502.opORA c x s)) .ORA mo := by
+  intro s hs
+  obtain ⟨hv, hcore⟩ := hx s hs
+  obtain ⟨ha, hxx, hy, hsp, hp, hpc, hmem, hw⟩ := core_fields hcore
+  have hm := hs.mem (ea c.BYTE_WIDTH mo (core s))
+  simp only [exec, ea_abs, nextPc_abs]
+  generalize ea c.BYTE_WIDTH mo (core s) = e at hv hm
+  simp only [Mpu6502.opORA]
+  proj_simp
+  rw [FlagsNZ_p c _ _ hc (by simpa [ha, hmem, hv] using lor_byte hc _ _ hs.a hm)]
+  simp only [hp, ha, hmem, hv, ByteAt_p, ByteAt_a, ByteAt_val, normP_setNZ _ hc.W, addrMask_succ hc]
+
+theorem opAND_ok (c : Cfg) (hc : IsDev c) (v : Variant) (x : St → Int × St) (mo : Mode)
+    (hx : ModeSem c x mo) :
+    HandlerOK c v (fun s => bump (mo.len - 1) (Mpu6502.opAND c x s)) .AND mo := by
+  intro s hs
+  obtain ⟨hv, hcore⟩ := hx s hs
+  obtain ⟨ha, hxx, hy, hsp, hp, hpc, hmem, hw⟩ := core_fields hcore
+  have hm := hs.mem (ea c.BYTE_WIDTH mo (core s))
+  simp only [exec, ea_abs, nextPc_abs]
+  generalize ea c.BYTE_WIDTH mo (core s) = e at hv hm
+  simp only [Mpu6502.opAND]
+  proj_simp
+  rw [FlagsNZ_p c _ _ hc (by simpa [ha, hmem, hv] using land_byte (c := c) s.a _ hm)]
+  simp only [hp, ha, hmem, hv, ByteAt_p, ByteAt_a, ByteAt_val, normP_setNZ _ hc.W, addrMask_succ hc]
+
+theorem opEOR_ok (c : Cfg) (hc : IsDev c) (v : Variant) (x : St → Int × St) (mo : Mode)
+    (hx : ModeSem c x mo) :
+    HandlerOK c v (fun s => bump (mo.len - 1) (Mpu6502.opEOR c x s)) .EOR mo := by
+  intro s hs
+  obtain ⟨hv, hcore⟩ := hx s hs
+  obtain ⟨ha, hxx, hy, hsp, hp, hpc, hmem, hw⟩ := core_fields hcore
+  have hm := hs.mem (ea c.BYTE_WIDTH mo (core s))
+  simp only [exec, ea_abs, nextPc_abs]
+  generalize ea c.BYTE_WIDTH mo (core s) = e at hv hm
+  simp only [Mpu6502.opEOR]
+  proj_simp
+  rw [FlagsNZ_p c _ _ hc (by simpa [ha, hmem, hv] using lxor_byte hc _ _ hs.a hm)]
+  simp only [hp, ha, hmem, hv, ByteAt_p, ByteAt_a, ByteAt_val, normP_setNZ _ hc.W, addrMask_succ hc]
+
+/-! ### stores -/
+
+theorem opSTA_ok (c : Cfg) (hc : IsDev c) (v : Variant) (x : St → Int × St) (mo : Mode)
+    (hx : ModeSem c x mo) :
+    HandlerOK c v (fun s => bump (mo.len - 1) (Mpu6502.opSTA c x s)) .STA mo := by
+  intro s hs
+  obtain ⟨hv, hcore⟩ := hx s hs
+  obtain ⟨ha, hxx, hy, hsp, hp, hpc, hmem, hw⟩ := core_fields hcore
+  simp only [exec, ea_abs, nextPc_abs]
+  generalize ea c.BYTE_WIDTH mo (core s) = e at hv
+  simp only [Mpu6502.opSTA, memSet, write]
+  proj_simp
+  simp only [addrMask_succ hc]
+
+theorem opSTX_ok (c : Cfg) (hc : IsDev c) (v : Variant) (x : St → Int × St) (mo : Mode)
+    (hx : ModeSem c x mo) :
+    HandlerOK c v (fun s => bump (mo.len - 1) (Mpu6502.opSTX c x s)) .STX mo := by
+  intro s hs
+  obtain ⟨hv, hcore⟩ := hx s hs
+  obtain ⟨ha, hxx, hy, hsp, hp, hpc, hmem, hw⟩ := core_fields hcore
+  simp only [exec, ea_abs, nextPc_abs]
+  generalize ea c.BYTE_WIDTH mo (core s) = e at hv
+  simp only [Mpu6502.opSTX, memSet, write]
+  proj_simp
+  simp only [addrMask_succ hc]
+
+theorem opSTY_ok (c : Cfg) (hc : IsDev c) (v : Variant) (x : St → Int × St) (mo : Mode)
+    (hx : ModeSem c x mo) :
+    HandlerOK c v (fun s => bump (mo.len - 1) (Mpu6502.opSTY c x s)) .STY mo := by
+  intro s hs
+  obtain ⟨hv, hcore⟩ := hx s hs
+  obtain ⟨ha, hxx, hy, hsp, hp, hpc, hmem, hw⟩ := core_fields hcore
+  simp only [exec, ea_abs, nextPc_abs]
+  generalize ea c.BYTE_WIDTH mo (core s) = e at hv
+  simp only [Mpu6502.opSTY, memSet, write]
+  proj_simp
+  simp only [addrMask_succ hc]
+
+
+/-! ### compare -/
+
+theorem opCMPR_core (c : Cfg) (hc : IsDev c) (x : St → Int × St) (mo : Mode) (hx : ModeSem c x mo)
+    (r : Int) (hr : 0 ≤ r ∧ r ≤ c.byteMask) (s : St) (hs : WF c s) :
+    core (Mpu6502.opCMPR c x r s) =
+      { core s with p := cmpFlags c.BYTE_WIDTH s.p r (s.mem (ea c.BYTE_WIDTH mo (core s))) } := by
+  obtain ⟨hv, hcore⟩ := hx s hs
+  obtain ⟨ha, hxx, hy, hsp, hp, hpc, hmem, hw⟩ := core_fields hcore
+  have hm := hs.mem (ea c.BYTE_WIDTH mo (core s))
+  generalize ea c.BYTE_WIDTH mo (core s) = e at hv hm
+  simp only [Mpu6502.opCMPR, ByteAt_val, ByteAt_p, hp, hmem, hv]
+  generalize s.mem e = m at hm
+  rcases hc with rfl | rfl <;>
+  · constfold [cmpFlags, setNZ] at hr hm ⊢
+    simp only [flagalg]
+    split_ifs <;> simp [core, flagalg, *] <;> flag_close
+
+theorem normP_cmpFlags (W : Nat) (hW : W = 8 ∨ W = 16) (p r m : Int) :
+    normP (cmpFlags W p r m) = cmpFlags W (normP p) r m := by
+  rcases hW with rfl | rfl <;>
+  · simp only [cmpFlags, normP_setNZ _ (by decide : (8:Nat) = 8 ∨ (8:Nat) = 16),
+      normP_setNZ _ (by decide : (16:Nat) = 8 ∨ (16:Nat) = 16), bitC]
+    rw [normP_setFlag _ _ _ (by decide)]
+
+theorem opCMP_ok (c : Cfg) (hc : IsDev c) (v : Variant) (x : St → Int × St) (mo : Mode)
+    (hx : ModeSem c x mo) :
+    HandlerOK c v (fun s => bump (mo.len - 1) (Mpu6502.opCMPR c x s.a s)) .CMP mo := by
+  intro s hs
+  have h := opCMPR_core c hc x mo hx s.a hs.a s hs
+  obtain ⟨ha, hxx, hy, hsp, hp, hpc, hmem, hw⟩ := core_eq h
+  simp only [exec, ea_abs, nextPc_abs]
+  simp only [absH, abs, bump, core, nextPc, ha, hxx, hy, hsp, hp, hpc, hmem, hw,
+    normP_cmpFlags _ hc.W, addrMask_succ hc]
+
+theorem opCPX_ok (c : Cfg) (hc : IsDev c) (v : Variant) (x : St → Int × St) (mo : Mode)
+    (hx : ModeSem c x mo) :
+    HandlerOK c v (fun s => bump (mo.len - 1) (Mpu6502.opCMPR c x s.x s)) .CPX mo := by
+  intro s hs
+  have h := opCMPR_core c hc x mo hx s.x hs.x s hs
+  obtain ⟨ha, hxx, hy, hsp, hp, hpc, hmem, hw⟩ := core_eq h
+  simp only [exec, ea_abs, nextPc_abs]
+  simp only [absH, abs, bump, core, nextPc, ha, hxx, hy, hsp, hp, hpc, hmem, hw,
+    normP_cmpFlags _ hc.W, addrMask_succ hc]
+
+theorem opCPY_ok (c : Cfg) (hc : IsDev c) (v : Variant) (x : St → Int × St) (mo : Mode)
+    (hx : ModeSem c x mo) :
+    HandlerOK c v (fun s => bump (mo.len - 1) (Mpu6502.opCMPR c x s.y s)) .CPY mo := by
+  intro s hs
+  have h := opCMPR_core c hc x mo hx s.y hs.y s hs
+  obtain ⟨ha, hxx, hy, hsp, hp, hpc, hmem, hw⟩ := core_eq h
+  simp only [exec, ea_abs, nextPc_abs]
+  simp only [absH, abs, bump, core, nextPc, ha, hxx, hy, hsp, hp, hpc, hmem, hw,
+    normP_cmpFlags _ hc.W, addrMask_succ hc]
 
 end Py65.Proofs
